@@ -325,13 +325,15 @@ _dispatch_transform_to_utf16(dispatch_data_t data, int32_t byteOrder)
 		} else if (skip > 0) {
 			src += skip;
 			size -= skip;
+			// positions in `data` are relative to the start of the region
+			offset += skip;
 			skip = 0;
 		}
 
 		for (i = 0; i < size;) {
 			uint32_t wch = 0;
 			uint8_t byte_size = _dispatch_transform_utf8_length(*src);
-			size_t next;
+			size_t next, seq_end = offset + i + byte_size;
 
 			if (byte_size == 0) {
 				return (bool)false;
@@ -359,7 +361,7 @@ _dispatch_transform_to_utf16(dispatch_data_t data, int32_t byteOrder)
 			if (os_mul_overflow(size - i, sizeof(uint16_t), &next)) {
 				return (bool)false;
 			}
-			if (wch == 0xfeff && offset + i == 3) {
+			if (wch == 0xfeff && seq_end == 3) {
 				// skip the BOM if any, as we already inserted one ourselves
 			} else if (wch >= 0xd800 && wch < 0xdfff) {
 				// Illegal range (surrogate pair)
@@ -431,6 +433,8 @@ _dispatch_transform_from_utf16(dispatch_data_t data, int32_t byteOrder)
 			src = (uint16_t *)(((uint8_t *)src) + skip);
 			size -= skip;
 			max = (size / 2);
+			// positions in `data` are relative to the start of the region
+			offset += skip;
 			skip = 0;
 		}
 
